@@ -66,6 +66,11 @@ func Compress(codec int8, src []byte) ([]byte, error) {
 		}
 	case 3:
 		w := lz4.NewWriter(&out)
+		// 64 KiB blocks, like the Java client (the library default of 4 MiB
+		// makes every reader allocate 4 MiB buffers)
+		if err := w.Apply(lz4.BlockSizeOption(lz4.Block64Kb)); err != nil {
+			return nil, err
+		}
 		w.Write(src)
 		if err := w.Close(); err != nil {
 			return nil, err
